@@ -78,8 +78,16 @@ def check(case, ctx):
         _find_dependencies = None
         ctx.event("driver-view-unavailable")
 
+    # the driver walks *all* inputs of a component: give it a sibling input fed through a push-based adapter
+    # (declared first) - whatever happens on that link must not influence the time assumed for this one
+    sib_out = fm.Output(name="s", info=fm.Info(time=hs.T0, grid=g, units="m"))
+    sib_in = fm.Input(name="a", info=fm.Info(time=hs.T0, grid=g, units="m"))
+    sib_out >> fm.adapters.LinearTime() >> sib_in
+    sib_in.ping()
+    sib_in.exchange_info()
+
     class _Comp:  # what the driver's walk needs from a component
-        inputs = {"i": inp}
+        inputs = {"a": sib_in, "i": inp}
 
     model = Model(chain)
     ndel = sum(1 for a in chain if a[0] in hs.DELAYS)
@@ -114,7 +122,7 @@ def check(case, ctx):
         assumed = None
         if _find_dependencies is not None and not has_push_delay:
             try:
-                deps = _find_dependencies(_Comp, {link.out: object()}, t)
+                deps = _find_dependencies(_Comp, {link.out: object(), sib_out: object()}, t)
                 if link.out in deps:
                     assumed = deps[link.out][0]
             except (TypeError, AttributeError, KeyError, IndexError):
